@@ -298,7 +298,102 @@ def floats_first_on_page():
         yield f'float-first-h{fh}-{follower}-n{int(narrow)}-p{pre}', page(body, 200, 100), w.groups
 
 
-FAMILIES = [floats_first_on_page, inline_floats, absolutes_long, max_lines_blocks, footnotes_in_columns, floats_definite, table_spans, footer_tables, column_spans,
+def overflow_hidden_containers():
+    """Containers that clip (overflow: hidden / auto / scroll, with and without a definite height) around an
+    unbreakable block - fixed height, with and without top padding - that starts above the page bottom and is taller
+    than the room left there, after other content. A clipping container of automatic height is fragmented like any
+    other block, so the unbreakable child goes to the next page; auto / scroll containers are monolithic."""
+    for overflow, pre, fixed, pad, wrap in itertools.product(('hidden', 'visible', 'auto'), (6, 7, 8), (30, 45),
+                                                             (0, 6), ('direct', 'nested', 'all')):
+        w = Words()
+        before = ''.join(f'<p>{w.take(1)[0]}</p>' for _ in range(pre))
+        inner = (f'<p>{w.take(1)[0]}</p><div style="height:{fixed}px;padding-top:{pad}px"></div>'
+                 f'<p>{w.take(1)[0]}</p>')
+        if wrap == 'nested':
+            inner = f'<div>{inner}</div>'
+        if wrap == 'all':       # the earlier content of the page is inside the clipping container too
+            body = f'<div style="overflow:{overflow}">{before}{inner}</div><p>{w.take(1)[0]}</p>'
+        else:
+            body = f'{before}<div style="overflow:{overflow}">{inner}</div><p>{w.take(1)[0]}</p>'
+        yield f'ovf-{overflow}-p{pre}-h{fixed}-pt{pad}-{wrap}', page(body, 200, 100), w.groups
+
+
+def table_rows_taller_than_split_cell():
+    """A table that is the first content of its page; a row that is not the first on the page holds a multi-line
+    cell, which is split at the page bottom, next to something that makes the row taller than the split content (a
+    cell or the row with a fixed height, a cell with a larger font): the row must not end below the page bottom."""
+    for first, lines, taller, value in itertools.product((60, 80), (4, 8), ('cell-height', 'row-height', 'font'),
+                                                         (40, 70)):
+        w = Words()
+        cell = '<br>'.join(w.take(1, ctx=('table',))[0] for _ in range(lines))
+        ids = [i for g in w.groups[-lines:] for i in g['words']]
+        del w.groups[-lines:]
+        w.groups.append({'kind': 'flow', 'words': ids, 'ctx': ['table']})
+        row_style = f'height:{value}px' if taller == 'row-height' else ''
+        if taller == 'cell-height':
+            other = f'<td style="height:{value}px">{w.take(1, ctx=("table",))[0]}</td>'
+        elif taller == 'font':
+            other = f'<td style="font-size:{value // 2}px;line-height:{value // 2}px">{w.take(1, ctx=("table",))[0]}</td>'
+        else:
+            other = f'<td>{w.take(1, ctx=("table",))[0]}</td>'
+        body = (f'<table style="border-spacing:0"><tr><td style="height:{first}px">{w.take(1, ctx=("table",))[0]}</td>'
+                f'<td>{w.take(1, ctx=("table",))[0]}</td></tr><tr style="{row_style}"><td>{cell}</td>{other}</tr>'
+                f'<tr><td>{w.take(1, ctx=("table",))[0]}</td><td>{w.take(1, ctx=("table",))[0]}</td></tr></table>'
+                f'<p>{w.take(1)[0]}</p>')
+        yield f'tbl-tall-f{first}-l{lines}-{taller}-v{value}', page(body, 200, 100), w.groups
+
+
+def several_header_footer_groups():
+    """Tables with two footer groups and / or two header groups (<tfoot>, <thead>, display: table-footer-group) in
+    every position: only the first of each kind is the header / footer (repeated on every page of the table), the
+    others are ordinary row groups whose rows are rendered exactly once."""
+    orders = ['BFF', 'FBF', 'FFB', 'BFBF', 'HBFF', 'HHB', 'BHH', 'HBHF', 'FF', 'HFHFB']
+    for order, rows, height, tags in itertools.product(orders, (2, 6), (50, 200), ('html', 'css')):
+        w = Words()
+        seen = set()
+        parts = []
+        for kind in order:
+            first = kind not in seen
+            seen.add(kind)
+            count = rows if kind == 'B' else 1
+            trs = []
+            for _ in range(count):
+                group_kind = 'rep' if (kind in 'HF' and first) else 'flow'
+                text = w.take(1, group_kind, ('table',))[0]
+                trs.append(f'<tr><td>{text}</td></tr>' if tags == 'html'
+                           else f'<div style="display:table-row"><div style="display:table-cell">{text}</div></div>')
+            if tags == 'html':
+                tag = {'B': 'tbody', 'H': 'thead', 'F': 'tfoot'}[kind]
+                parts.append(f'<{tag}>{"".join(trs)}</{tag}>')
+            else:
+                display = {'B': 'table-row-group', 'H': 'table-header-group', 'F': 'table-footer-group'}[kind]
+                parts.append(f'<div style="display:{display}">{"".join(trs)}</div>')
+        table = (f'<table style="border-spacing:0">{"".join(parts)}</table>' if tags == 'html'
+                 else f'<div style="display:table;border-spacing:0">{"".join(parts)}</div>')
+        body = f'<p>{w.take(1)[0]}</p>{table}<p>{w.take(1)[0]}</p>'
+        yield f'tbl-groups-{order}-r{rows}-H{height}-{tags}', page(body, 200, height), w.groups
+
+
+def page_counters_in_flow():
+    """Text generated from page-based counters in the normal flow (counter(pages), counter(page)): the first
+    pagination pass sees another value than the last one, the generated text gets wider, the paragraph takes one more
+    line and page breaks move; the pages after it must start where the new page stops. The generated text holds no
+    numbered word; every numbered word is rendered exactly once, in order."""
+    for counter, where, fillers, height in itertools.product(('pages', 'page'), (0, 4, 48), (60, 90), (50,)):
+        w = Words()
+        pars = []
+        for index in range(fillers):
+            if index == where:
+                # 11 glyphs with a one-digit counter value, 12 with a two-digit one: 110px wide page
+                pars.append(f'<p>ab cd <span class="n"></span> {w.take(1)[0]}</p>')
+            pars.append(f'<p>{w.take(3)[0]}</p>')
+        css = f'body{{font-family:weasyprint}}.n::after{{content:"T" counter({counter})}}'   # fixed-pitch test font
+        html = page(''.join(pars), 110, height).replace('<style>', f'<style>{css}', 1)
+        yield f'pgctr-{counter}-at{where}-n{fillers}-H{height}', html, w.groups
+
+
+FAMILIES = [floats_first_on_page, overflow_hidden_containers, table_rows_taller_than_split_cell,
+            several_header_footer_groups, page_counters_in_flow, inline_floats, absolutes_long, max_lines_blocks, footnotes_in_columns, floats_definite, table_spans, footer_tables, column_spans,
             footnotes_plain, floats_long, forced_breaks_in_tables, padded_containers]
 
 
@@ -568,3 +663,14 @@ def totality_documents():
                    f'<html><head><style>@page{{size:200px 100px;margin:10px;@top-left{{content:{function}({args})}}}}'
                    f'p::before{{{decls}}} p{{{decls}}}</style></head><body><p id=x>a</p><a href="#x">l</a></body>'
                    f'</html>')
+
+
+_totality_documents_base = totality_documents
+
+
+def totality_documents():
+    """The documents above, then the footnotes-in-multi-column family (a footnote reported from a column to the next
+    page empties the footnote area while the columns are laid out)."""
+    yield from _totality_documents_base()
+    for doc_id, html, _groups in footnotes_in_columns():
+        yield f'tot-{doc_id}', html
